@@ -101,6 +101,35 @@ _w(
       "behaviour-preserving rename in _parse_digits"),
 )
 
+_FH = "pyoda_time/text/_format_helper.py"
+_LDP = "pyoda_time/text/_local_date_pattern.py"
+_LTP2 = "pyoda_time/text/_local_time_pattern.py"
+_IP = "pyoda_time/text/_instant_pattern.py"
+_TPH = "pyoda_time/text/patterns/_time_pattern_helper.py"
+_DPP = "pyoda_time/text/_duration_pattern_parser.py"
+
+_w(
+    "C07",
+    W("format-action-dropped", [(_SPB, "        self._add_parse_action(parse_action)\n        self._add_format_action(format_action)\n\n    def add_negative_only_sign", "        self._add_parse_action(parse_action)\n\n    def add_negative_only_sign")], ("R07.1",),
+      "required sign is parsed but never written"),
+    W("swapped-getter", [(_LTP, "            2, _PatternFields.MINUTES, 0, 59, minutes_getter, minutes_setter, LocalTime", "            2, _PatternFields.MINUTES, 0, 59, seconds_getter, minutes_setter, LocalTime")], ("R07.2",),
+      "'mm' formats the seconds but parses into the minutes"),
+    W("fraction-scale-mismatch", [(_TPH, "                success, fractional_seconds = value_cursor._parse_fraction(\n                    count, max_count, count if pattern_character == \"f\" else 0\n                )", "                success, fractional_seconds = value_cursor._parse_fraction(\n                    count, count, count if pattern_character == \"f\" else 0\n                )")], ("R07.3",),
+      "fraction parsed with scale = count but formatted with scale = max_count"),
+    W("left-pad-sign-in-width", [(_FH, "        cls._left_pad_non_negative(-value, length, output_buffer)", "        output_buffer.length -= 1\n        output_buffer.append(f\"{value:0{length}d}\")")], ("R07.5",),
+      "negative numbers padded with a width that counts the sign"),
+    W("partial-hours-as-total", [(_DPP, "                selector=lambda duration: _csharp_modulo(\n                    _towards_zero_division(abs(duration.nanosecond_of_day), nanoseconds_per_unit), units_per_container\n                ),", "                selector=lambda duration: _towards_zero_division(duration.nanosecond_of_day, nanoseconds_per_unit),")], ("R07.5",),
+      "'hh' of a duration formats a possibly negative / unreduced quantity with the 2-digit non-negative formatter"),
+)
+
+_w(
+    "C17",
+    W("iso-month-one-digit", [(_LDP, "create_with_invariant_culture(\"uuuu'-'MM'-'dd\")", "create_with_invariant_culture(\"uuuu'-'M'-'dd\")")], ("R17.1",), "ISO date pattern writes months without zero padding"),
+    W("iso-12-hour", [(_LTP2, "create_with_invariant_culture(\"HH':'mm':'ss\")", "create_with_invariant_culture(\"hh':'mm':'ss\")")], ("R17.1",), "general ISO time uses the 12-hour field"),
+    W("instant-without-z", [(_IP, "create_with_invariant_culture(\"uuuu-MM-ddTHH:mm:ss'Z'\")", "create_with_invariant_culture(\"uuuu-MM-ddTHH:mm:ss\")")], ("R17.1",), "general instant pattern loses the trailing Z"),
+    W("twin-quote-literals", [(_IP, "create_with_invariant_culture(\"uuuu-MM-ddTHH:mm:ss'Z'\")", "create_with_invariant_culture(\"uuuu'-'MM'-'dd'T'HH:mm:ss'Z'\")")], (), "same pattern with the literals quoted"),
+)
+
 # ------------------------------------------------------------------------------------------- engine
 
 
